@@ -13,7 +13,7 @@ from . import series_common as sc
 ID = "C12"
 PROPS = "props/C12.v"
 GENERATED = []
-CASE_DEPS = ["lib/CaseUtil.vo", "lib/FloatExt.vo", "model/Convert.vo"]
+CASE_DEPS = ["lib/CaseUtil.vo", "lib/FloatExt.vo", "model/Convert.vo", "model/ConvertDaily.vo"]
 ALLOWED_AXIOMS = {
     "sig_forall_dec", "sig_not_dec", "functional_extensionality_dep", "classic",
     "ClassicalDedekindReals.sig_forall_dec", "ClassicalDedekindReals.sig_not_dec",
@@ -23,23 +23,31 @@ TRUSTED = [
     "model/Convert.v is a hand-written model of series/_conversions.py for regular (yearly/half-yearly/quarterly/monthly) "
     "frequencies, tied by bit-exact correspondence; statistics.mean is exact-rational, the float model's sum/n agrees with it on "
     "the dyadic data the generator uses",
-    "daily sources/targets and arip are covered by the falsifier (calendar membership via CPython datetime; arip via the KKT "
-    "conditions recomputed with numpy), not by the Coq model",
+    "model/ConvertDaily.v is a hand-written functional model of _aggregate_daily_to_regular and _disaggregate_* with a DAILY "
+    "target (day_start/day_end = to_daily(start/end), low_of_day = the regular period containing a day) over the proleptic "
+    "Gregorian calendar of lib/Calendar.v; tied by bit-exact correspondence (series cases and calendar-function cases, years "
+    "1..9999 only: the model does not reproduce datetime's range errors); the disaggregation model is a function of the day "
+    "(value of the period containing it) rather than numpy repeat/cumsum, the correspondence run is what ties the two",
+    "arip is covered by the falsifier (KKT conditions recomputed with numpy), not by the Coq model",
 ]
 ASSUMPTIONS = [
     "round-trip theorems for mean are over a field (Coq reals); first/last/min/max round trips hold for every carrier",
 ]
 MANIFEST = {
-    "technique": "Coq proof of group membership / placement / round trips on the Series model (row_at refinement), bit-exact "
-                 "PrimFloat correspondence for regular frequencies; falsifier for daily and arip",
+    "technique": "Coq proof of group membership / placement / round trips on the Series model (row_at refinement) for regular "
+                 "and daily frequencies (proleptic Gregorian calendar), bit-exact PrimFloat correspondence; falsifier for arip",
     "level_text": "Theorems (props/C12.v): for regular frequencies and every series, the aggregated value of low period l is the "
                   "method applied to exactly the rows l*factor .. l*factor+factor-1 (= the high periods whose coarse period is l); a "
                   "missing member makes mean/sum/prod missing on carriers with absorbing missing values; first/last return the "
                   "first/last member; disaggregation places values at exactly j=0 / factor/2 / factor-1 / all positions; "
-                  "aggregate(disaggregate flat) with first/last/min/max (any carrier) and mean (reals) and first-first, last-last "
-                  "return the original map. Daily conversion and arip are decided by the falsifier only (partial).",
-    "level_note": "Trusted: Coq kernel + vm_compute, hand model, harness. Partial: daily membership and arip optimality are not "
-                  "Coq theorems yet (falsifier: calendar via datetime, KKT via numpy).",
+                  "aggregate(disaggregate flat) with first/last/min/max (any carrier) and mean (reals) "
+                  "return the original map. DAILY: a day belongs to a monthly/quarterly/half-yearly/yearly period iff it lies between "
+                  "the period's first and last day (month lengths, 4/100/400 leap rule), periods tile the days, daily->regular "
+                  "aggregation applies the method to exactly the days of the period, regular->daily flat/first/middle/last place "
+                  "values at exactly all days / first day / first day + ndays//2 / last day, and flat round trips with "
+                  "first/last/min/max (any carrier) and mean (reals) return the original map. arip is decided by the falsifier only.",
+    "level_note": "Trusted: Coq kernel + vm_compute, hand models, harness. Partial: arip constraints/optimality are not "
+                  "Coq theorems yet (falsifier: KKT via numpy); first-first / last-last round trips are falsifier-only.",
 }
 
 REG = [1, 2, 4, 12]
@@ -71,11 +79,71 @@ def gen_case(rng):
     return {"op": "dis", "method": rng.randrange(len(DIS)), "ft": ft, "s": s}
 
 
+_DAILY_YEARS = [1900, 2000, 2100, 2400, 1999, 2004, 2023, 2024]
+
+
+def _rand_day(rng):
+    y = rng.choice(_DAILY_YEARS) if rng.random() < 0.6 else rng.randint(1850, 2150)
+    m = rng.choice([1, 2, 2, 3, 6, 12, rng.randint(1, 12)])
+    import calendar
+    d = rng.choice([1, calendar.monthrange(y, m)[1], rng.randint(1, 28)])
+    return dt.date(y, m, d).toordinal()
+
+
+def gen_daily_case(rng):
+    """daily -> regular aggregation or regular -> daily disaggregation (model/ConvertDaily.v)."""
+    pool = [k / 8.0 for k in range(-24, 41)]
+    nv = rng.choice([1, 1, 2])
+    if rng.random() < 0.5:
+        n = rng.choice([1, 5, 40, 100, 400])
+        rows = [[(float("nan") if rng.random() < 0.04 else rng.choice(pool)) for _ in range(nv)] for _ in range(n)]
+        for idx in (0, -1):
+            if all(v != v for v in rows[idx]):
+                rows[idx][0] = 1.0
+        s = {"freq": 365, "start": _rand_day(rng), "nv": nv, "rows": rows}
+        select = None
+        if rng.random() < 0.25:
+            select = sorted(rng.sample(range(28), rng.randint(1, 3)))
+        return {"op": "dagg", "method": rng.randrange(len(AGG)), "ft": rng.choice(REG), "select": select,
+                "discard": rng.random() < 0.3, "s": s}
+    fs = rng.choice(REG)
+    y = rng.choice(_DAILY_YEARS) if rng.random() < 0.6 else rng.randint(1850, 2150)
+    n = rng.randint(1, 2 if fs == 1 else 4)
+    rows = [[(float("nan") if rng.random() < 0.15 else rng.choice(pool)) for _ in range(nv)] for _ in range(n)]
+    for idx in (0, -1):
+        if all(v != v for v in rows[idx]):
+            rows[idx][0] = 1.0
+    s = {"freq": fs, "start": y * fs + rng.randint(0, fs - 1), "nv": nv, "rows": rows}
+    return {"op": "ddis", "method": rng.randrange(len(DIS)), "ft": 365, "s": s}
+
+
+def gen_calendar_cases(rng, n):
+    """(coq term, expected integer): to_daily(start/end) of a regular period and the regular period containing a day."""
+    from irispie import dates as D
+    out = []
+    for _ in range(n):
+        f = rng.choice(REG)
+        y = rng.choice(_DAILY_YEARS) if rng.random() < 0.4 else rng.randint(1, 9999)
+        t = y * f + rng.randint(0, f - 1)
+        p = sc.mk_period(f, t)
+        k = rng.randrange(3)
+        if k == 0:
+            out.append((f"day_start {coq_z(f)} {coq_z(t)}", int(p.to_daily(position="start").serial)))
+        elif k == 1:
+            out.append((f"day_end {coq_z(f)} {coq_z(t)}", int(p.to_daily(position="end").serial)))
+        else:
+            a = int(p.to_daily(position="start").serial); b = int(p.to_daily(position="end").serial)
+            nday = rng.choice([a, b, rng.randint(a, b)])
+            got = sc.mk_period(365, nday).convert(_freq_enum(f))
+            out.append((f"low_of_day {coq_z(f)} {coq_z(nday)}", int(got.serial)))
+    return out
+
+
 def run_impl(case):
     import irispie as ir
     try:
         s = sc.mk_series(case["s"])
-        if case["op"] == "agg":
+        if case["op"] in ("agg", "dagg"):
             s.aggregate(_freq_enum(case["ft"]), method=AGG[case["method"]], discard_missing=case["discard"],
                         select=case["select"])
         else:
@@ -87,6 +155,12 @@ def run_impl(case):
 
 def coq_case(case):
     s = sc.coq_series(case["s"])
+    if case["op"] == "dagg":
+        sel = "None" if case["select"] is None else "(Some " + coq_list([f"{i}%nat" for i in case["select"]]) + ")"
+        return (f"aggregate_daily FA (FX tb) {AGG_K[case['method']]} {sel} {core.coq_bool(case['discard'])} "
+                f"{coq_z(case['ft'])} {s}")
+    if case["op"] == "ddis":
+        return f"disaggregate_daily FA {DIS_K[case['method']]} {s}"
     if case["op"] == "agg":
         sel = "None" if case["select"] is None else "(Some " + coq_list([f"{i}%nat" for i in case["select"]]) + ")"
         return (f"aggregate_regular FA (FX tb) {AGG_K[case['method']]} {sel} {core.coq_bool(case['discard'])} "
@@ -95,7 +169,7 @@ def coq_case(case):
 
 
 HEADER = """From Coq Require Import ZArith List Bool PrimFloat.
-From Verif Require Import lib.Arith lib.CaseUtil lib.FloatExt model.Series model.SeriesOps model.Convert.
+From Verif Require Import lib.Arith lib.Calendar lib.CaseUtil lib.FloatExt model.Series model.SeriesOps model.Convert model.ConvertDaily.
 Import ListNotations.
 Open Scope Z_scope.
 Set Printing Width 1000000.
@@ -115,13 +189,19 @@ def correspondence(ctx) -> CorrResult:
     n = ctx.scale(800, 30000)
     per = 200
     cases = [gen_case(rng) for _ in range(n)]
+    n_daily = ctx.scale(240, 6000)
+    daily_cases = [gen_daily_case(rng) for _ in range(n_daily)]
+    n_cal = ctx.scale(600, 20000)
+    cal = gen_calendar_cases(rng, n_cal)
+    cases = cases + daily_cases
     outs = [run_impl(c) for c in cases]
-    res = CorrResult(evaluations=n)
+    n = len(cases)
+    res = CorrResult(evaluations=n + n_cal)
     dist = {"op": {}, "method": {}, "pair": {}, "errors": {}, "select": 0, "discard": 0}
     sig = set()
     for c, o in zip(cases, outs):
         dist["op"][c["op"]] = dist["op"].get(c["op"], 0) + 1
-        nm = (AGG if c["op"] == "agg" else DIS)[c["method"]]
+        nm = (AGG if c["op"] in ("agg", "dagg") else DIS)[c["method"]]
         dist["method"][nm] = dist["method"].get(nm, 0) + 1
         pr = f"{c['s']['freq']}->{c['ft']}"
         dist["pair"][pr] = dist["pair"].get(pr, 0) + 1
@@ -136,12 +216,31 @@ def correspondence(ctx) -> CorrResult:
     res.distribution = dist
     res.rule = ("one random series of a regular frequency (1-3 variants, missing values, dyadic data, sometimes empty) and one "
                 "aggregate (7 methods, select, discard_missing) or disaggregate (flat/first/middle/last) call to a regular target; "
+                "DAILY: a daily series of 1..400 days starting at a month start/end/inner day of a centurial, leap or ordinary year "
+                "aggregated to a regular target (7 methods, select within 0..27, discard_missing), or a regular series of 1..4 "
+                "periods disaggregated to DAILY (4 methods); calendar cases: to_daily(start/end) of a regular period of years "
+                "1..9999 and the regular period containing a day (Period.convert); "
                 "non-trivial = frequencies differ and the result has at least two periods; distinct by case text")
     res.samples = [{"case": c, "impl": o} for c, o in list(zip(cases, outs))[:3]]
-    shards = [(cases[i:i + per], outs[i:i + per]) for i in range(0, n, per)]
-    results = core.run_cases(ctx, [shard_text(a, b) for a, b in shards])
-    res.shards = len(shards)
-    for k, (ok, out) in enumerate(results):
+    n_reg = n - n_daily
+    shards = [(cases[i:i + per], outs[i:i + per]) for i in range(0, n_reg, per)]
+    shards += [(cases[i:i + 40], outs[i:i + 40]) for i in range(n_reg, n, 40)]       # daily cases are long: small shards
+    cal_shards = [cal[i:i + 2000] for i in range(0, n_cal, 2000)]
+    cal_texts = [HEADER + "Definition cases : list (Z * Z) := [\n" + ";\n".join(f"  ({a}, {coq_z(b)})" for a, b in sh)
+                 + "\n].\nEval vm_compute in (failing Z.eqb cases 0).\n" for sh in cal_shards]
+    results = core.run_cases(ctx, [shard_text(a, b) for a, b in shards] + cal_texts)
+    res.shards = len(shards) + len(cal_shards)
+    dist["calendar_cases"] = n_cal
+    for k, (ok, out) in enumerate(results[len(shards):]):
+        if not ok:
+            res.disagreements.append(Disagreement(f"calendar shard {k} does not evaluate", None, out[-600:], None)); continue
+        bodies = core.parse_eval_lists(out)
+        if len(bodies) != 1:
+            res.disagreements.append(Disagreement(f"calendar shard {k}: unparsable output", None, out[-600:], None)); continue
+        for i in core.parse_nat_list(bodies[0]):
+            res.disagreements.append(Disagreement("calendar:" + cal_shards[k][i][0].split()[0], cal_shards[k][i][0],
+                                                  "model value differs", cal_shards[k][i][1]))
+    for k, (ok, out) in enumerate(results[:len(shards)]):
         cs, os_ = shards[k]
         if not ok:
             res.disagreements.append(Disagreement(f"cases shard {k} does not evaluate", None, out[-600:], None)); continue
@@ -149,7 +248,7 @@ def correspondence(ctx) -> CorrResult:
         if len(bodies) != 1:
             res.disagreements.append(Disagreement(f"cases shard {k}: unparsable output", None, out[-600:], None)); continue
         for i in core.parse_nat_list(bodies[0]):
-            res.disagreements.append(Disagreement(f"{cs[i]['op']}:{(AGG if cs[i]['op']=='agg' else DIS)[cs[i]['method']]}",
+            res.disagreements.append(Disagreement(f"{cs[i]['op']}:{(AGG if cs[i]['op'] in ('agg', 'dagg') else DIS)[cs[i]['method']]}",
                                                   cs[i], "model result differs", os_[i]))
     return res
 
